@@ -246,16 +246,16 @@ def judgeKex (o i : Op) : String :=
         | some vh =>
           match i.hex? "vsig", i.hex? "vhh" with
           | some vsig, some vhh =>
-            let expected := hostSigGate vsig (i.str "valgo").toUTF8.toList (i.str "sigc" == "1")
+            let expected := hostSigGateFor vsig (i.str "valgo") (i.str "sigc" == "1")
             first [need ((vh == "1") == expected) s!"signature gate: impl {vh}, model {expected}",
-                   need (!(o.str "st" == "-" && mm == "-") || vh == "1") "signature gate rejects the honest exchange",
+                   need (!((o.str "st" == "-" || o.str "st" == "plain") && mm == "-") || vh == "1") "signature gate rejects the honest exchange",
                    need (!(vh == "1") || (vhh == hs && vhh == hc)) "client accepted a signature although the exchange hashes differ"]
           | _, _ => some "bad-impl"
       ,
       -- real server vs scripted client: what it signed is its H, under the negotiated algorithm
       fun _ => if mode == "ps" && x.s == "ok" then
           first [need (i.str "ssig" == "1") "server's signature does not verify over its H",
-                 need (i.str "sfmt" == o.str "hk") "server signed with another algorithm than negotiated"]
+                 need (i.str "sfmt" == underlyingAlgo (o.str "hk")) "server signed with another algorithm than negotiated"]
         else none ]
     match r with
     | none => "ok"
